@@ -415,7 +415,7 @@ theorem stale_flag {st : St} (key : Key) (h : staleKey st key) :
 
 /-- a BMP connection of the finished run passes the checker -/
 theorem checkSub_bmp (c : Case) (hc : caseOk c = true) (i nth : Nat) (r : SubRec)
-    (hr' : r ∈ ((run c).threads i).mysubs) (hk : r.kind = 1) :
+    (hr' : r ∈ ((run c).threads i).mysubs) (hk : r.kind = 1) (hnst : ∀ key, ¬ staleKey (run c) key) :
     Spec.checkSub c (keyUniverse c) ((keyUniverse c).map fun key => (preOf (run c) key, postOf (run c) key))
       ((keyUniverse c).map fun key => match (run c).rib key with
         | some e => isStale (run c) key.peer e
@@ -449,9 +449,8 @@ theorem checkSub_bmp (c : Case) (hc : caseOk c = true) (i nth : Nat) (r : SubRec
       · rw [(quiescent_thread hI hq i).2.2] at hl; cases hl
     apply checkKeys_map
     intro key _
-    by_cases hst : staleKey (run c) key
-    · exact Or.inl (stale_flag key hst)
-    right
+    have hst := hnst key
+    refine ⟨stale_flag_false key hst, ?_⟩
     have hw : ∀ m, held (wireHist m key ((run c).queues r.sid) r.e0) = ribV m (run c) key := by
       intro m
       rw [held_wireHist m key _ _ heos]
@@ -501,7 +500,8 @@ theorem checkSub_mrt (c : Case) (hc : caseOk c = true) (i nth : Nat) (r : SubRec
 
 /-- a gRPC watch stream of the finished run passes the checker -/
 theorem checkSub_watch (c : Case) (hc : caseOk c = true) (i nth : Nat) (r : SubRec)
-    (hr' : r ∈ ((run c).threads i).mysubs) (k : Nat) (hk : r.kind = k + 3) :
+    (hr' : r ∈ ((run c).threads i).mysubs) (k : Nat) (hk : r.kind = k + 3)
+    (hnst : ∀ key, ¬ staleKey (run c) key) :
     Spec.checkSub c (keyUniverse c) ((keyUniverse c).map fun key => (preOf (run c) key, postOf (run c) key))
       ((keyUniverse c).map fun key => match (run c).rib key with
         | some e => isStale (run c) key.peer e
@@ -567,9 +567,8 @@ theorem checkSub_watch (c : Case) (hc : caseOk c = true) (i nth : Nat) (r : SubR
     · simp only [hso, Bool.not_true, Bool.false_eq_true, if_false]
       apply checkKeys_map
       intro key _
-      by_cases hst : staleKey (run c) key
-      · exact Or.inl (stale_flag key hst)
-      right
+      have hst := hnst key
+      refine ⟨stale_flag_false key hst, ?_⟩
       have := hkey hso false key hst
       simpa [Spec.checkWatchKey, ribV] using this
     · simp [hso]
@@ -580,19 +579,68 @@ theorem checkSub_watch (c : Case) (hc : caseOk c = true) (i nth : Nat) (r : SubR
     · simp only [hso, Bool.not_true, Bool.false_eq_true, if_false]
       apply checkKeys_map
       intro key _
-      by_cases hst : staleKey (run c) key
-      · exact Or.inl (stale_flag key hst)
-      right
+      have hst := hnst key
+      refine ⟨stale_flag_false key hst, ?_⟩
       have := hkey hso true key hst
       simpa [Spec.checkWatchKey, ribV] using this
     · simp [hso]
 
-/-- THE MASTER THEOREM, consumer tasks included: for every case that only names shards that exist
+/-- no session of the case ends with GR retention (`gdown`) -/
+def noRetention (c : Case) : Bool := c.threads.all fun t => t.2.all fun o => !(o == .gdown)
+
+theorem init_ng (c : Case) : NG c (init c) := by
+  intro p hpe
+  refine ⟨?_, fun g hm => by simp [init] at hm⟩
+  intro ins hins k hi
+  obtain ⟨_, _, h3⟩ := init_thread c p
+  rcases h3 with h3 | ⟨w, ops, ht, h3⟩
+  · rw [h3] at hins; cases hins
+  · rw [h3] at hins
+    simp only [compileAll, List.mem_flatMap] at hins
+    obtain ⟨op, hop, hin⟩ := hins
+    simp only [peerRetains, ht, List.any_eq_false] at hpe
+    have hne := hpe op hop
+    subst hi
+    cases op <;> simp [compile, lockSec, bulk, purgeLoop, perShard] at hin hne
+
+theorem reach_ng {c : Case} {st : St} (h : Reach c st) : NG c st := by
+  induction h with
+  | init => exact init_ng c
+  | @step st st' i _ hs ih =>
+    cases hp : (st.threads i).pgm with
+    | nil => simp [step, hp] at hs
+    | cons ins rest => exact step_ng ih hp hs
+
+/-- without GR retention the table never holds a stale route -/
+theorem no_stale {c : Case} (hnr : noRetention c = true) {st : St} (h : Reach c st) (key : Key) :
+    ¬ staleKey st key := by
+  intro ⟨e, _, hg⟩
+  have hp : peerRetains c key.peer = false := by
+    unfold peerRetains
+    cases ht : c.threads[key.peer]? with
+    | none => rfl
+    | some t =>
+      obtain ⟨w, ops⟩ := t
+      simp only [noRetention, List.all_eq_true] at hnr
+      have := hnr _ (List.mem_of_getElem? ht)
+      simp only [List.any_eq_false]
+      intro o ho
+      have := this o ho
+      simpa using this
+  exact ((reach_ng h) key.peer hp).2 _ hg
+
+/-- THE MASTER THEOREM for the tightened checker (review r-7 item 2), consumer tasks included:
+    for every case that only names shards that exist and in which no session ends with GR retention
     — any number of shards, writer sessions, channel subscribers, BMP connections, MRT dumps and
-    watch streams, ANY operations, ANY schedule string, at either granularity — the reference
-    checker written from the property text accepts the observation of the model's run. -/
-theorem check_run_ok_full (c : Case) (hc : caseOk c = true) : Spec.check c (observe c (run c)) = .ok := by
+    watch streams, any other operations, ANY schedule string, at either granularity — the reference
+    checker accepts the observation of the model's run.  PARTIAL: with GR retention (`gdown`) the
+    statement is FALSE for BMP connections and watch streams (finding S28h, `C18_full_fails`) and
+    unproved for channel subscribers (the escape of a retained key now has to be justified by the
+    subscriber's own history: held = table, or PeerDown was the last thing it was told). -/
+theorem check_run_ok_full_partial (c : Case) (hc : caseOk c = true) (hnr : noRetention c = true) :
+    Spec.check c (observe c (run c)) = .ok := by
   have hfin := run_finished c hc
+  have hnst := no_stale hnr (run_reach c)
   unfold Spec.check
   simp only [observe, hfin, Bool.not_true, Bool.false_eq_true, if_false, bne_self_eq_false]
   apply checkSubs_ok
@@ -602,9 +650,9 @@ theorem check_run_ok_full (c : Case) (hc : caseOk c = true) : Spec.check c (obse
   obtain ⟨nth, r⟩ := p
   have hr' : r ∈ ((run c).threads i).mysubs := mem_enumFrom' _ _ _ hp
   match hk : r.kind with
-  | 0 => exact checkSub_chan c hc i nth r hr' hk
-  | 1 => exact checkSub_bmp c hc i nth r hr' hk
+  | 0 => exact checkSub_chan c hc i nth r hr' hk hnst
+  | 1 => exact checkSub_bmp c hc i nth r hr' hk hnst
   | 2 => exact checkSub_mrt c hc i nth r hr' hk
-  | k + 3 => exact checkSub_watch c hc i nth r hr' k hk
+  | k + 3 => exact checkSub_watch c hc i nth r hr' k hk hnst
 
 end Rbgp.Monitor
